@@ -1,7 +1,7 @@
 #!/bin/bash
 # run_all.sh [quick|thorough] : every registered check, one after another, against /repo; summary on stdout
 TIER="${1:-quick}"
-cd /verif
+cd "$(dirname "$0")/.."
 for p in $(python3 -c "import json;print(' '.join(c['property_id'] for c in json.load(open('MANIFEST.json'))['checks']))"); do
   s=$(date +%s); out=$(python3 tools/check.py $p $TIER 2>&1); rc=$?
   echo "$p rc=$rc $(( $(date +%s) - s ))s $(echo "$out" | grep -c '^VIOLATION') violations | $(echo "$out" | tail -1 | cut -c1-150)"
